@@ -780,9 +780,9 @@ def main():
                     "History: three successive symbolic displacement states through the real history update.",
         bound={"splits": ISO_SPLITS, "materials": ["isotropic plane strain", "isotropic plane stress (thorough)", "transversely isotropic with tilted axes"], "strain_box": "[-1, 1]^3 (exx, eyy, exy)",
                "second_gauss_point": bq, "regularisations": ["AT1", "AT2"], "history_steps": 3, "dimension": "2-D only"},
-        symbolic=["strain at Gauss point A", "psi+ (regularisation jobs)", "nine displacement components of three successive states (history)"],
-        assumptions=["3-D splits (Lode-angle closed forms: arccos, cos, fractional powers, exact float equality tests) are outside: no encoding within reach", "the staggered solver loop and the BoundConstrain / HistoryDamage solvers are outside "
-                     "(iterative, float stopping criteria); only the history bookkeeping is inside", "material constants concrete; He's split uses the concrete matrix square root of C",
+        symbolic=["strain at Gauss point A", "psi+ (regularisation jobs)", "nine displacement components of three successive states (history)", "old damage field and the outputs of every linear solve (damage_step jobs)"],
+        assumptions=["3-D splits (Lode-angle closed forms: arccos, cos, fractional powers, exact float equality tests) are outside: no encoding within reach", "the staggered loop with the real linear solves is outside (iterative, float stopping criteria); inside: the history bookkeeping, and one step of Solve() for the HistoryDamage / BoundConstrain "
+                     "solvers with every linear solve replaced by its contract (any vector / any vector within the bounds handed to lsq_linear; convergence option 0; at most 2 staggered iterations, 3 in thorough)", "material constants concrete; He's split uses the concrete matrix square root of C",
                      "real-number semantics: float round-off of the closed forms near (not at) degenerate states is outside"],
         source_files=["EasyFEA/Models/_phasefield.py", "EasyFEA/Simulations/_phasefield.py"],
         rule="one job per (split, material, second Gauss point state), regions enumerated inside the job; non-trivial = symbolic strain with a solver-closed region cover",
